@@ -362,6 +362,10 @@ impl Boudot2000RangeProof {
             + Integer::from(2).pow(l + t + rug::ops::DivRounding::div_floor(T, 2) + 1)
                 * Integer::from(Integer::from(b - a).sqrt_ref());
 
+        // x_a and x_b lie in [0, bb - aa]: the bound of the square roots whose proofs of
+        // square follow (their blinding term has to cover root * challenge, not b * challenge)
+        let root_bound = Integer::from(Integer::from(&bb - &aa).sqrt_ref()) + Integer::from(1);
+
         let x_a = &x - aa;
 
         let x_b = bb - &x;
@@ -426,9 +430,9 @@ impl Boudot2000RangeProof {
             % n;
 
         let proof_of_square_a =
-            Self::proof_of_square::<H>(&x_a_1, &r_a_1, g, h, &E_a_1, l, t, b, s, s1, s2, n);
+            Self::proof_of_square::<H>(&x_a_1, &r_a_1, g, h, &E_a_1, l, t, &root_bound, s, s1, s2, n);
         let proof_of_square_b =
-            Self::proof_of_square::<H>(&x_b_1, &r_b_1, g, h, &E_b_1, l, t, b, s, s1, s2, n);
+            Self::proof_of_square::<H>(&x_b_1, &r_b_1, g, h, &E_b_1, l, t, &root_bound, s, s1, s2, n);
         let proof_large_i_a =
             Self::proof_large_interval_specific::<H>(&x_a_2, &r_a_2, g, h, t, l, b, s, n, T);
         let proof_large_i_b =
